@@ -29,6 +29,10 @@ func (e *Engine) stub7(fn *ssa.Function, args []any) (any, bool) {
 		if sym, ok := e.resolve(pb.raw, keysOf(x25519PubOf)); ok {
 			other = x25519PubOf[sym]
 		}
+		// crypto/ecdh refuses the all-zero shared secret of a low-order point; the all-zero point stands for them
+		if e.branch(SymBool{"(= " + pb.raw + " " + smtStr(string(make([]byte, 32))) + ")"}) {
+			return Tuple{BytesV{Nil: true}, e.mkErr("crypto/ecdh: bad X25519 remote ECDH input: low order point")}, true
+		}
 		if other == "" { // peer public key of unknown origin: plain DH term
 			ex := "(dh " + pr.raw + " " + pb.raw + ")"
 			e.S.Send("(assert (= (str.len " + ex + ") 32))")
